@@ -306,6 +306,10 @@ func gen(r *vlib.R, n int, tier string, emit func(string)) {
 	// splitmix64 sequence; re-key from a scrambled output so that seeds 1..5
 	// are unrelated streams (everything still derives from VERIF_SEED).
 	r = vlib.NewR(r.U64() ^ 0xc13c13c13c13c13)
+	probeBudget = 60
+	if tier == "thorough" {
+		probeBudget = 250
+	}
 	genL3(r, tier, emit, &n)
 	genStateless(r, emit, &n, 40)
 	for n > 0 {
@@ -544,12 +548,19 @@ func (g *caseGen) alsoWire(q qspec, t int64) {
 	}
 }
 
+var probeBudget int
+
 // several clients arriving together behind one retained failure generation:
 // different names / types / CD bits / ECS audiences below an expired zone
 // failure (one probe), the same exact question from several audiences, and
 // unrelated questions (one leader each).
 func (g *caseGen) probe() {
 	r := g.r
+	if probeBudget <= 0 { // each batch waits ~70 ms for the single-flight to settle
+		g.recovery()
+		return
+	}
+	probeBudget--
 	zone := "probe" + fmt.Sprint(r.Intn(3)) + ".example.com."
 	cls := 1
 	withZone := r.Chance(3, 4)
